@@ -213,6 +213,13 @@ class SSHLocalForwarder(SSHForwarder):
 
         assert self._peer is not None
 
+        if not self._transport:
+            # The local connection went away while the channel was being
+            # opened, so there's nothing left to forward. Close the newly
+            # opened channel instead of leaving it open indefinitely.
+            self.close()
+            return
+
         if self._inpbuf:
             self._peer.write(self._inpbuf)
             self._inpbuf = b''
